@@ -58,7 +58,7 @@ def make_jobs(ctx):
     for i in range(ngr):
         jobs.append(('net', {'seed': rng.randrange(1 << 30), 'kind': 'grammar', 'fold': i % 3 == 0, 'mode': rng.choice(['mix', 'mix', 'mix', 'min', 'all', 'adv']),
                              'integer': i % 2 == 0, 'dim': [1, 1, 2][i % 3]}))
-    ncu = 50 if ctx.quick else 600
+    ncu = 81 if ctx.quick else 900
     for i in range(ncu):
         jobs.append(('net', {'seed': rng.randrange(1 << 30), 'kind': 'custom', 'variant': cn.VARIANTS[i % len(cn.VARIANTS)], 'fold': i % 3 == 1,
                              'mode': rng.choice(['mix', 'mix', 'min', 'adv']), 'integer': i % 2 == 0}))
@@ -70,7 +70,8 @@ def make_jobs(ctx):
     for i in range(nl):
         K = rng.randint(1, 9)
         jobs.append(('layer', {'seed': rng.randrange(1 << 30), 'K': K, 'd0': rng.choice([1, 2, 3]), 'r': rng.randint(1, K), 'v': rng.randint(0, pm.glen(K) - 1),
-                               'fold': i % 3 == 0, 'dw': i % 4 == 1, 'stride': 2 if i % 5 == 4 else 1, 'bias': i % 7 != 0, 'bn': i % 2 == 0}))
+                               'fold': i % 3 == 0, 'dw': i % 4 == 1, 'stride': 2 if i % 5 == 4 else 1, 'bias': i % 7 != 0, 'bn': i % 2 == 0,
+                               'padmode': [None, None, None, 'circular', None, 'reflect', None, None, 'replicate', None][i % 10]}))
     return jobs
 
 
@@ -376,6 +377,10 @@ def run(ctx):
         if any(v != 0 for v in dead):
             fails.append((key_of('dead-channel-not-zero', j), {'case': {'layer_job': j}, 'observed': {k: c[k] for k in ('mout', 'tm', 'b', 'y')}},
                           'PITConv1d (fold_bn=%s) outputs %r on its masked-out channels (mask %r), expected 0' % (j['fold'], dead[:6], c['mout'])))
+    for c in lays:
+        if c.get('ref') is not None and c['ref'] != c['y']:
+            fails.append(('layer-differs-from-plain-layer:padding_mode' + (':fold_bn' if c['job']['fold'] else ''), {'case': {'layer_job': c['job']}, 'observed': {k: c[k] for k in ('mout', 'tm', 'y', 'ref')}},
+                          'PITConv1d(padding_mode=%s, fold_bn=%s) forward %r differs from the plain Conv1d with the same parameters (alive channels, zeros elsewhere) %r' % (c['job']['padmode'], c['job']['fold'], c['y'], c['ref'])))
     for c in ops:
         ctx.case(('o', c['expr']), nontrivial=True, kind='op:' + c['kind'])
     ctx.extra['networks'] = len(nets) - nskip
@@ -418,8 +423,9 @@ def run(ctx):
             ctx.extra['whole_networks_evaluated_in_coq'] = len(xn)
             # run_net is PROVED to compute ceval_pit / ceval_exp for every node kind it has (C01_run_net_sound): all evaluated networks
             ctx.extra['whole_networks_in_proved_fragment'] = len(xn)
-            vals = ctx.coq_eval_sharded('lcases', IMPORTS, '', [layer_case_exprs(c) for c in lays], shard=100)
-            for c, (ypit, yexp, mout, tm) in zip(lays, vals):
+            mlays = [c for c in lays if not c['job'].get('padmode')]
+            vals = ctx.coq_eval_sharded('lcases', IMPORTS, '', [layer_case_exprs(c) for c in mlays], shard=100)
+            for c, (ypit, yexp, mout, tm) in zip(mlays, vals):
                 ctx.corr += 1
                 d = []
                 if mout != c['mout']:
@@ -433,8 +439,8 @@ def run(ctx):
                     d.append('exported layer of the model %r != alive channels of the implementation forward %r' % (yexp, alive))
                 if d:
                     mism.append(({'layer_job': c['job']}, d))
-            gl = ctx.coq_eval_sharded('glcases', c01_gen.IMPORTS, '', [c01_gen.layer_case_gen_expr(c) for c in lays], shard=100)
-            mism += c01_gen.case_differences(lays, vals, gl)
+            gl = ctx.coq_eval_sharded('glcases', c01_gen.IMPORTS, '', [c01_gen.layer_case_gen_expr(c) for c in mlays], shard=100)
+            mism += c01_gen.case_differences(mlays, vals, gl)
             vals = ctx.coq_eval_sharded('ops', IMPORTS, '', [c['expr'] for c in ops], shard=150)
             for c, v in zip(ops, vals):
                 ctx.corr += 1
@@ -472,6 +478,9 @@ def replay(r):
         o = cn.layer_case(torch, c['layer_job'])
         dead = [v for co, row in enumerate(o['y']) if not o['mout'][co] for v in row]
         print('PITConv1d forward, features mask', o['mout'], 'output', o['y'])
-        print('required: masked-out channels are zero ->', 'holds' if not any(dead) else 'VIOLATED')
-        return 0 if not any(dead) else 1
+        bad = any(dead) or (o.get('ref') is not None and o['ref'] != o['y'])
+        if o.get('ref') is not None:
+            print('plain layer with the same parameters (alive channels):', o['ref'])
+        print('required: masked-out channels are zero, alive channels equal the plain layer ->', 'holds' if not bad else 'VIOLATED')
+        return 1 if bad else 0
     return 1
